@@ -58,6 +58,10 @@ var verifAbnormalPrograms = []string{
 	"[1].map(function () { return hostPanic() })",
 	"new (function Ctor() { undefinedFunction() })()",
 	"(function () { return eval('throw x') })()",
+	"chk: if (x === x || true) throw x",
+	"a: b: with ({}) c: { d: switch (1) { case 1: e: try { hostPanic() } finally { fin = 2 } } }",
+	"lbl: notDefinedAnywhere",
+	"function lf() { inFn: if (true) { throw x } } lf()",
 }
 
 // C18-H3: after an uncaught exception or a panicking host function, from any
